@@ -11,6 +11,7 @@ CONSTANTS
   MaxBal = 2
   Kinds <- KindsEndorseQ
   Ords <- OrdId3
+  AliasSafe = FALSE
   Window = TRUE
   NumOf <- Flat
 INVARIANT TypeOK
